@@ -21,8 +21,10 @@ import (
 	"encoding/json"
 	"flag"
 	"fmt"
+	"math/rand"
 	"os"
 	"reflect"
+	"sort"
 	"sync"
 
 	seccomp "github.com/elastic/go-seccomp-bpf"
@@ -259,6 +261,61 @@ func programs() map[string]string {
 	return out
 }
 
+// siblings: label -> policy; see digest.
+var order *int
+
+func siblings() map[string]seccomp.Policy {
+	out := map[string]seccomp.Policy{}
+	acts := []seccomp.Action{seccomp.ActionErrno, seccomp.ActionErrno | 1, seccomp.ActionErrno | 2, seccomp.ActionErrno | 13, seccomp.ActionErrno | 38,
+		seccomp.ActionErrno | 0xffff, seccomp.ActionTrace, seccomp.ActionTrace | 1, seccomp.ActionTrace | 2, seccomp.ActionTrap, seccomp.ActionTrap | 7,
+		seccomp.ActionKillThread, seccomp.ActionKillProcess, seccomp.ActionLog, seccomp.ActionAllow, 0x12340000, 0x12350000, 0x12340001}
+	for _, a := range []*arch.Info{arch.X86_64, arch.ARM} {
+		for _, x := range acts {
+			p := seccomp.Policy{DefaultAction: seccomp.ActionAllow, Syscalls: []seccomp.SyscallGroup{{Names: []string{"read", "write"}, Action: x},
+				{Names: []string{"close"}, Action: seccomp.ActionTrap}}}
+			seccomp.VerifSetArch(&p, a)
+			out[fmt.Sprintf("group action %#x for %s", uint32(x), a.Name)] = p
+			q := seccomp.Policy{DefaultAction: seccomp.ActionAllow, Syscalls: []seccomp.SyscallGroup{{Names: []string{"close"}, Action: seccomp.ActionTrap},
+				{NamesWithCondtions: []seccomp.NameWithConditions{{Name: "ioctl", Conditions: []seccomp.Condition{{Argument: 1, Operation: seccomp.Equal, Value: 9}}}}, Action: x}}}
+			seccomp.VerifSetArch(&q, a)
+			out[fmt.Sprintf("second group action %#x for %s", uint32(x), a.Name)] = q
+		}
+		type v struct {
+			arg        uint32
+			op         seccomp.Operation
+			val        uint64
+			name, last string
+			swap       bool
+		}
+		base := v{1, seccomp.Equal, 7, "ioctl", "listen", false}
+		vars := map[string]v{"base": base}
+		for l, f := range map[string]func(*v){
+			"value 8": func(x *v) { x.val = 8 }, "value 7<<32": func(x *v) { x.val = 7 << 32 }, "value 7+1<<32": func(x *v) { x.val = 7 + 1<<32 },
+			"argument 0": func(x *v) { x.arg = 0 }, "argument 5": func(x *v) { x.arg = 5 }, "NotEqual": func(x *v) { x.op = seccomp.NotEqual },
+			"GreaterThan": func(x *v) { x.op = seccomp.GreaterThan }, "GreaterOrEqual": func(x *v) { x.op = seccomp.GreaterOrEqual },
+			"LessThan": func(x *v) { x.op = seccomp.LessThan }, "BitsSet": func(x *v) { x.op = seccomp.BitsSet }, "BitsNotSet": func(x *v) { x.op = seccomp.BitsNotSet },
+			"name fcntl": func(x *v) { x.name = "fcntl" }, "last name bind": func(x *v) { x.last = "bind" }, "names swapped": func(x *v) { x.swap = true },
+		} {
+			x := base
+			f(&x)
+			vars[l] = x
+		}
+		for l, x := range vars {
+			names := []string{"read", "write", "open"}
+			if x.swap {
+				names = []string{"write", "read", "open"}
+			}
+			p := seccomp.Policy{DefaultAction: seccomp.ActionAllow, Syscalls: []seccomp.SyscallGroup{{Names: names, Action: seccomp.ActionErrno},
+				{NamesWithCondtions: []seccomp.NameWithConditions{{Name: x.name, Conditions: []seccomp.Condition{{Argument: x.arg, Operation: x.op, Value: x.val},
+					{Argument: 2, Operation: seccomp.LessThan, Value: 77}}}}, Action: seccomp.ActionKillProcess},
+				{Names: []string{"socket", x.last}, Action: seccomp.ActionTrap}}}
+			seccomp.VerifSetArch(&p, a)
+			out[fmt.Sprintf("variant %s for %s", l, a.Name)] = p
+		}
+	}
+	return out
+}
+
 func digest() string {
 	h := sha256.New()
 	for k := 0; k < 4; k++ {
@@ -282,6 +339,25 @@ func digest() string {
 		b, err := compileBytes(&p)
 		fmt.Fprintf(h, "default arch: err %v\n", err)
 		h.Write(b)
+	}
+	// ... and SIBLING policies - values that differ in one field only (the data bits of an action, one operand, one argument index,
+	// one operation, one name, the order of two names) - compiled in an order that differs from process to process (-order): what a
+	// policy compiles to does not depend on which policies the process compiled before it
+	sib := siblings()
+	labels := make([]string, 0, len(sib))
+	for l := range sib {
+		labels = append(labels, l)
+	}
+	sort.Strings(labels)
+	perm := rand.New(rand.NewSource(int64(*order))).Perm(len(labels))
+	res := make([]string, len(labels))
+	for _, i := range perm {
+		p := sib[labels[i]]
+		b, err := compileBytes(&p)
+		res[i] = fmt.Sprintf("%s: %x err=%v", labels[i], sha256.Sum256(b), err)
+	}
+	for _, r := range res {
+		fmt.Fprintln(h, r)
 	}
 	for _, f := range []seccomp.FilterFlag{0, 1, 2, 3, 7, 0x8003} {
 		fmt.Fprintln(h, f.String())
@@ -392,6 +468,7 @@ func conc(share string, n, rounds int) {
 
 func main() {
 	mode := flag.String("mode", "seq", "seq | conc | digest | programs")
+	order = flag.Int("order", 0, "digest: seed of the order in which the sibling policies are compiled")
 	n := flag.Int("n", 16, "goroutines")
 	rounds := flag.Int("rounds", 30, "rounds per goroutine")
 	flag.Parse()
